@@ -1,4 +1,8 @@
     pub open spec fn cong(a: int, b: int) -> bool { (a - b) % (Q as int) == 0 }
+    // r is a Montgomery reduction of a: r * 2^32 == a (mod q). Named so that proofs about call results can trigger on it.
+    pub open spec fn mont_rel(r: int, a: int) -> bool { cong(r * 4_294_967_296, a) }
+    // r is the Montgomery form of (something congruent to) s
+    pub open spec fn mont_of(r: int, s: int) -> bool { cong(r, s * 4_294_967_296) }
 
     // FIPS 204 section 2.3: m mod+- alpha, the representative in (-alpha/2, alpha/2]
     pub open spec fn mod_pm(m: int, alpha: int) -> int {
